@@ -5,7 +5,7 @@ from __future__ import annotations
 import random
 
 GRAMMAR_ALPHABET = list(" \n#-ox~<>P0123456789abzAZ_:[]()'\"@%+=*&?!;|\\`{}/.,^$") + ["[[", "]]", "::", "  * ", "    - ", "      + ", "\n\n", "# ", "- ", "o ", "################################ ", "======================== ", "++++++++++++++++ ", "-------- ", "240101#AB ", "240101 ", "2024-01-01 ", "https://a.b/c ", "[k:: v] ", "k::v ", "[#id] ", "[^id] ", "\r\n", "\t"]
-NASTY_WORDS = ["123456", "999999", "241939#AB", "240231#zz", "2024-13-45", "2000-00-00", "2999-19-39", "[a::b::c]", "[a:: ]", "[::]", "k::", "::v", "[[", "]]", "[[]]", "[#]", "((", "))", "P", "P10", "o", "x", "#", "@", "%", "+", "'", '"', "'#tag'", "[k::v w]", "240101#", "240101#A", "#240101", "@123456", "[240231#AB]", "http://", "https://a", "https://a.b:99999/x?y", "a::b::c", "[a::b]::c", "000000", "000000#00", "0000-00-00"]
+NASTY_WORDS = ["230229", "250229#A1", "2023-02-29", "210229", "240431", "240431#zz", "2024-04-31", "000230", "240229", "240229#Ab", "2024-02-29", "123456", "999999", "241939#AB", "240231#zz", "2024-13-45", "2000-00-00", "2999-19-39", "[a::b::c]", "[a:: ]", "[::]", "k::", "::v", "[[", "]]", "[[]]", "[#]", "((", "))", "P", "P10", "o", "x", "#", "@", "%", "+", "'", '"', "'#tag'", "[k::v w]", "240101#", "240101#A", "#240101", "@123456", "[240231#AB]", "http://", "https://a", "https://a.b:99999/x?y", "a::b::c", "[a::b]::c", "000000", "000000#00", "0000-00-00"]
 
 
 def damage(text: str, rng: random.Random) -> tuple[str, list[str]]:
